@@ -6,6 +6,7 @@ package main
 import (
 	"fmt"
 	"go/ast"
+	"go/constant"
 	"go/token"
 	"go/types"
 	"math/big"
@@ -1312,12 +1313,88 @@ func (e *Engine) loopHeader(st *State, fr *Frame, b, prev *ssa.BasicBlock, ord i
 	}
 	bindPhis(st, arriving)
 	env.st = st
+	// loopiter: ghost count of completed iterations of this loop (0 on entry, +1 on every back edge).  It lets an
+	// invariant speak about "how many times the body ran" without naming the program's counter.
+	itKey := fmt.Sprintf("loopiter%d", ord)
+	if isBack {
+		if prevIt, ok := st.names[itKey].(*Term); ok {
+			st.names["loopiter"] = mkAdd(prevIt, mkInt(big1))
+		}
+	} else {
+		st.names["loopiter"] = mkInt(big0)
+	}
+	// counters: a header phi that enters with a constant c0 and is re-entered as phi +/- constant satisfies
+	// phi == c0 +/- step*loopiter.  This is not assumed: it is an invariant conjunct like any other (checked on
+	// entry and on every back edge, with the engine's exact machine arithmetic for phi's next value).
+	type ctrRel struct {
+		ph   *ssa.Phi
+		c0   *big.Int
+		step *big.Int
+	}
+	var ctrs []ctrRel
+	if len(b.Preds) == 2 {
+		entryIdx := -1
+		for i, p := range b.Preds {
+			if !b.Dominates(p) {
+				entryIdx = i
+			}
+		}
+		if entryIdx >= 0 {
+			for _, in := range b.Instrs {
+				ph, ok := in.(*ssa.Phi)
+				if !ok {
+					break
+				}
+				c0, ok := ph.Edges[entryIdx].(*ssa.Const)
+				if !ok || c0.Value == nil || c0.Value.Kind() != constant.Int {
+					continue
+				}
+				bo, ok := ph.Edges[1-entryIdx].(*ssa.BinOp)
+				if !ok || bo.X != ssa.Value(ph) || (bo.Op != token.ADD && bo.Op != token.SUB) {
+					continue
+				}
+				sc, ok := bo.Y.(*ssa.Const)
+				if !ok || sc.Value == nil || sc.Value.Kind() != constant.Int {
+					continue
+				}
+				c0v, ok1 := new(big.Int).SetString(c0.Value.ExactString(), 10)
+				stv, ok2 := new(big.Int).SetString(sc.Value.ExactString(), 10)
+				if !ok1 || !ok2 {
+					continue
+				}
+				if bo.Op == token.SUB {
+					stv = new(big.Int).Neg(stv)
+				}
+				ctrs = append(ctrs, ctrRel{ph, c0v, stv})
+			}
+		}
+	}
+	ctrTerm := func(c ctrRel) *Term {
+		it, _ := st.names["loopiter"].(*Term)
+		pv, ok := fr.vals[c.ph].(*Term)
+		if it == nil || !ok {
+			return nil
+		}
+		return mkEq(pv, mkAdd(mkInt(c.c0), mkMul(mkInt(c.step), it)))
+	}
 	for i, inv := range ls.Invariants {
 		kind := "inv-entry"
 		if isBack {
 			kind = "inv-preserved"
 		}
 		e.addObligation(st, fr, kind, fmt.Sprintf("loop%d:%d", ord, i), env.boolTerm(inv.Expr), inv.Text)
+	}
+	if usesLoopiter(ls) {
+		for _, c := range ctrs {
+			if t := ctrTerm(c); t != nil {
+				kind := "inv-entry"
+				if isBack {
+					kind = "inv-preserved"
+				}
+				e.addObligation(st, fr, kind, fmt.Sprintf("loop%d:counter:%s", ord, phiName(c.ph)), t,
+					fmt.Sprintf("%s == %s + (%s)*loopiter", phiName(c.ph), c.c0, c.step))
+			}
+		}
 	}
 	if isBack {
 		return []Exit{{kind: "loopback", st: st}}, true
@@ -1335,6 +1412,19 @@ func (e *Engine) loopHeader(st *State, fr *Frame, b, prev *ssa.BasicBlock, ord i
 		}
 	}
 	bindPhis(st, hv)
+	{
+		it := mkIntVarR(tag+".loopiter", big0, nil)
+		st.names["loopiter"] = it
+		st.names[itKey] = it
+		st.assume(mkLe(mkInt(big0), it))
+		if usesLoopiter(ls) {
+			for _, c := range ctrs {
+				if t := ctrTerm(c); t != nil {
+					st.assume(t)
+				}
+			}
+		}
+	}
 	for _, m := range ls.Modifies {
 		for _, x := range m.Exprs {
 			cells, dyn := env.lvalueCells(x)
@@ -1372,6 +1462,18 @@ func (e *Engine) loopHeader(st *State, fr *Frame, b, prev *ssa.BasicBlock, ord i
 		}
 	}
 	return nil, false
+}
+
+// usesLoopiter: the loop's invariants mention the ghost iteration count.
+func usesLoopiter(ls *LoopSpec) bool {
+	for _, inv := range ls.Invariants {
+		for _, id := range freeIdents(inv.Expr) {
+			if id == "loopiter" {
+				return true
+			}
+		}
+	}
+	return false
 }
 
 func phiName(ph *ssa.Phi) string {
